@@ -11,7 +11,9 @@
 //!        where `<kind>` is what the REAL parser says about `argv[..index] ++ [candidate]`
 //!        (`ok`, an `ErrorKind` name or `PANIC`), and `(tree ...)` is the reflection dump of the built
 //!        command (names, aliases, hidden flags of every level) for the oracle.
-//! Extension items understood in command specs: `(x-pv (xNAME h|v)...)` on an arg = PossibleValuesParser.
+//! `(dynorder ...)` = `dyn` (the candidates are printed in the order returned; the model side applies the final sort).
+//! Extension items understood in command specs: `(x-pv (xNAME h|v)...)` on an arg = PossibleValuesParser;
+//! `(x-ord n)` on an arg or a command = display_order(n); `(x-heading xH)` on an arg = help_heading.
 use crate::hex;
 use crate::modes::parse::{build_cmd_with, kind_name, EnvGuard};
 use crate::sexp::Sx;
@@ -36,6 +38,13 @@ fn arg_ext(a: Arg, items: &[Sx]) -> Arg {
                 .collect();
             a = a.value_parser(PossibleValuesParser::new(pvs));
         }
+        if it.head() == "x-ord" {
+            // explicit display order / help heading: the sort data of the engine's final sort (stream `order`)
+            a = a.display_order(it.args()[0].num() as usize);
+        }
+        if it.head() == "x-heading" {
+            a = a.help_heading(String::from_utf8(it.args()[0].bytes()).expect("heading utf8"));
+        }
         if it.head() == "x-hint" {
             // value hints switch on the path completers of engine/custom.rs (stream `paths`)
             let h = match it.args()[0].sym() {
@@ -50,6 +59,17 @@ fn arg_ext(a: Arg, items: &[Sx]) -> Arg {
         }
     }
     a
+}
+
+/// `(x-ord n)` on a command: its display order among the subcommands of its parent
+fn cmd_ext(c: Command, items: &[Sx]) -> Command {
+    let mut c = c;
+    for it in &items[1..] {
+        if it.head() == "x-ord" {
+            c = c.display_order(it.args()[0].num() as usize);
+        }
+    }
+    c
 }
 
 /// A small fixed directory for the path completers: created on demand, contents never depend on the case.
@@ -67,7 +87,7 @@ fn paths_dir() -> std::path::PathBuf {
 
 fn build(spec: &Sx, env: &mut EnvGuard) -> Option<Command> {
     catch_unwind(AssertUnwindSafe(|| {
-        let c = build_cmd_with(spec.args(), env, &arg_ext, &|c, _| c);
+        let c = build_cmd_with(spec.args(), env, &arg_ext, &cmd_ext);
         let mut probe = c.clone();
         probe.build();
         c
@@ -267,7 +287,7 @@ fn dynpath_mode(a: &[Sx]) -> String {
 
 pub fn dispatch(head: &str, args: &[Sx]) -> Option<String> {
     match head {
-        "dyn" => Some(dyn_mode(args, false)),
+        "dyn" | "dynorder" => Some(dyn_mode(args, false)),
         "dynaccept" => Some(dyn_mode(args, true)),
         "dynpath" => Some(dynpath_mode(args)),
         _ => None,
